@@ -20,11 +20,16 @@ def scenario(rng, k, length):
     code = bytearray()
     acts = []
     # surrounding layout: sometimes occupy the first candidate addresses of the 'anywhere' search
-    lay = rng.choice(["none", "low", "low2", "none"])
+    lay = rng.choice(["none", "low", "low2", "none", "unordered", "unordered3"])
     if lay in ("low", "low2"):
         acts.append({"op": "mem_init_zero", "start": 0x1000, "len": rng.choice([0x10, 0x800, 0x1000])})
     if lay == "low2":
         acts.append({"op": "mem_init_zero", "start": 0x2000, "len": 0x20})
+    if lay.startswith("unordered"):
+        # the candidate pages are blocked by areas that were NOT created in ascending address order
+        order = [0x3000, 0x1000, 0x2000] if lay == "unordered" else [0x4000, 0x2000, 0x1000, 0x3000]
+        for a0 in order:
+            acts.append({"op": "mem_init_zero", "start": a0 + rng.choice([0, 0, 0x10]), "len": rng.choice([0x10, 0x800, 0x1000 - 0x10])})
     acts.append({"op": "handle_syscalls", "list": ["Brk"]})
 
     def sysc(p):
